@@ -22,6 +22,8 @@ type Use struct {
 	// ForceSupp makes the supplied (possibly mutated) parents REPLACE what the
 	// store would supply for the same IDs (C04 door 3).
 	ForceSupp bool
+	// EarlyWindowID: supply this block ID as the storage-proof window ID when the real window block does not exist yet.
+	EarlyWindowID *types.BlockID
 }
 
 // UseV1SC spends p with a v1 transaction (p must carry a v1-class address).
@@ -128,6 +130,11 @@ func (w *World) UseV2Expire(fce types.V2FileContractElement) Use {
 // BlockOfUses builds a sealed block from uses (v1 transactions first, as the block format dictates).
 // Stale v1 parents listed in the uses are supplied through the supplement when the store no longer has them.
 func (w *World) BlockOfUses(uses ...Use) (types.Block, consensus.V1BlockSupplement) {
+	return w.BlockOfUsesOpts(BlockOpts{}, uses...)
+}
+
+// BlockOfUsesOpts is BlockOfUses with block options.
+func (w *World) BlockOfUsesOpts(o BlockOpts, uses ...Use) (types.Block, consensus.V1BlockSupplement) {
 	var v1 []types.Transaction
 	var v2 []types.V2Transaction
 	var v1uses []Use
@@ -140,7 +147,10 @@ func (w *World) BlockOfUses(uses ...Use) (types.Block, consensus.V1BlockSuppleme
 			v2 = append(v2, u.V2.DeepCopy())
 		}
 	}
-	b, bs := w.BuildBlock(v1, v2, BlockOpts{})
+	if len(v2) > 0 {
+		o.ForceV2 = true
+	}
+	b, bs := w.BuildBlock(v1, v2, o)
 	for i, u := range v1uses {
 		ts := &bs.Transactions[i]
 		if u.ForceSupp {
@@ -183,6 +193,8 @@ func (w *World) BlockOfUses(uses ...Use) (types.Block, consensus.V1BlockSuppleme
 				ws := e.FileContract.WindowStart
 				if !found && ws >= 1 && ws-1 < uint64(len(w.Hist)) {
 					ts.StorageProofs = append(ts.StorageProofs, consensus.V1StorageProofSupplement{FileContract: copyFCE(e), WindowID: w.Hist[ws-1].B.ID()})
+				} else if !found && u.EarlyWindowID != nil {
+					ts.StorageProofs = append(ts.StorageProofs, consensus.V1StorageProofSupplement{FileContract: copyFCE(e), WindowID: *u.EarlyWindowID})
 				}
 			}
 		}
